@@ -113,6 +113,30 @@ def run(tier: str) -> int:
                             r.hit({"node": n, "kind": "parameter-reform-leaks", "group": g},
                                   f"changing {g}{list(path)} at {date} changes {n}, which does not depend on that group",
                                   {"date": date, "data": popgen.frame_to_json(df), "group": g, "leaf": [str(x) for x in path], "node": n})
+            # --- reforms of the statutory rounding rules (params[g]["rounding"][rule]): grid and additive term
+            rgroups = [g for g in params if isinstance(params[g].get("rounding"), dict) and params[g]["rounding"]]
+            for g in (rnd.sample(rgroups, min(3, len(rgroups))) if quick else rgroups):
+                for rule in (rnd.sample(sorted(params[g]["rounding"]), 1) if quick else sorted(params[g]["rounding"])):
+                    for what in ("base", "to_add_after_rounding"):
+                        p2 = copy.deepcopy(params)
+                        spec = p2[g]["rounding"][rule]
+                        if what == "base":
+                            spec["base"] = spec["base"] * 4
+                        else:
+                            spec["to_add_after_rounding"] = spec.get("to_add_after_rounding", 0) + 7
+                        try:
+                            res = simulate_with(df, p2, functions, nodes)
+                        except Exception:  # noqa: BLE001
+                            continue
+                        allowed = cone(dag, users_of_group(date, g, functions, dag))
+                        r.case({"date": date, "pop": k, "group": g, "rounding-reform": [rule, what]})
+                        for n in nodes:
+                            if n not in allowed and not identical(res[n], base[n]):
+                                r.hit({"node": n, "kind": "parameter-reform-leaks", "group": g},
+                                      f"changing the rounding rule {g}['rounding'][{rule!r}][{what!r}] at {date} changes {n}, "
+                                      f"which neither reads {g}_params nor is rounded by that group",
+                                      {"date": date, "data": popgen.frame_to_json(df), "group": g, "rounding_rule": rule,
+                                       "changed": what, "node": n})
             # --- deep copy of the parameters / identical copies of functions change nothing
             res = simulate_with(df, copy.deepcopy(params), functions, nodes)
             r.case({"date": date, "pop": k, "reform": "deepcopy(params)"})
